@@ -325,6 +325,8 @@ def instantiate(rng, isa, form, pool, mem=None, regs=None, imm=None, imm_text=No
                 r = pool.reg(rng, o["cls"], o.get("wide", False), o.get("cls_pat"))
             regnames.append(r)
             texts.append(("%" if isa == "x86" else "") + r)
+        elif o["kind"] == "lbl":
+            texts.append(".L%d" % rng.randint(1, 3))  # a branch target: nothing read or written
         elif o["kind"] == "imm":
             imm_val = imm if imm is not None else rng.choice([1, 2, 4, 8, 16, 24])
             texts.append(imm_text if imm_text is not None else ("$%d" if isa == "x86" else "#%d") % imm_val)
@@ -382,6 +384,8 @@ def instantiate(rng, isa, form, pool, mem=None, regs=None, imm=None, imm_text=No
             kinds.append({"k": "reg", "name": r} if isa == "x86" else {"k": "reg", "prefix": r[0] if r not in ("sp",) else "x", "shape": None})
         elif o["kind"] == "imm":
             kinds.append({"k": "imm", "type": "int"})
+        elif o["kind"] == "lbl":
+            kinds.append({"k": "id"})
         else:
             mm = mems[mi]
             mi += 1
@@ -630,6 +634,11 @@ def curated_vocab(isa):
         f("add", [g("d", **w), g("s", **w), g("s", **w)])
         f("add", [g("d", **w), g("s", **w), i], bump="add")
         f("sub", [g("d", **w), g("s", **w), i], bump="sub")
+        # conditional branches in both spellings (their flag reads are what the ISA description declares)
+        lbl = {"kind": "lbl", "role": "s"}
+        f("b.ne", [lbl])
+        f("b.lt", [lbl])
+        f("bne", [lbl])
         f("adds", [g("d", **w), g("s", **w), i], bump="add")  # flag-setting forms have their own entries in the ISA description
         f("subs", [g("d", **w), g("s", **w), i], bump="sub")
         f("mul", [g("d", **w), g("s", **w), g("s", **w)])
